@@ -42,7 +42,7 @@ def parse_color(attr_value: str) -> styles.ColorType:
 
     return styles.NamedColors[lower_attr_value].value
 
-  m = _HEX_COLOR_RE.match(attr_value)
+  m = _HEX_COLOR_RE.fullmatch(attr_value)
 
   if m:
 
@@ -55,9 +55,12 @@ def parse_color(attr_value: str) -> styles.ColorType:
       )
     )
 
-  m = _DEC_COLOR_RE.match(attr_value)
+  m = _DEC_COLOR_RE.fullmatch(attr_value)
 
   if m:
+
+    if any(int(c) > 255 for c in m.groups()):
+      raise ValueError("Color component out of range")
 
     return styles.ColorType(
       (
@@ -68,9 +71,12 @@ def parse_color(attr_value: str) -> styles.ColorType:
       )
     )
 
-  m = _DEC_COLORA_RE.match(attr_value)
+  m = _DEC_COLORA_RE.fullmatch(attr_value)
 
   if m:
+
+    if any(int(c) > 255 for c in m.groups()):
+      raise ValueError("Color component out of range")
 
     return styles.ColorType(
       (
